@@ -205,18 +205,37 @@ ASAN_ENV = dict(os.environ, ASAN_OPTIONS="detect_leaks=0:abort_on_error=0:exitco
                 UBSAN_OPTIONS="print_stacktrace=1:halt_on_error=1:exitcode=66")
 
 
+OUTPUT_LIMIT = 1 << 30      # bytes of stdout one harness process may write
+
+
 def run_c(exe, lines, timeout=40, valgrind=False):
     try:
         argv = [str(exe)]
         if valgrind:
             argv = ["valgrind", "-q", "--error-exitcode=66", "--exit-on-first-error=yes", "--track-origins=no"] + argv
             timeout = timeout * 20
-        r = subprocess.run(argv, input="\n".join(lines) + "\n", stdout=subprocess.PIPE,
-                           stderr=subprocess.PIPE, text=True, env=ASAN_ENV, timeout=timeout, errors="replace")
-        return r.stdout.split("\n")[:-1] if r.stdout.endswith("\n") else r.stdout.split("\n"), r.returncode, r.stderr
-    except subprocess.TimeoutExpired as e:
-        so = e.stdout.decode(errors="replace") if e.stdout else ""
-        return so.split("\n")[:-1], -9, "SUMMARY: timeout after %ss (hang / infinite loop?)" % timeout
+        # stdout goes to a scratch file under an RLIMIT_FSIZE: a C side that prints in an endless loop is stopped by
+        # the kernel (SIGXFSZ) instead of filling this process's memory (a thorough run was once OOM-killed at 63 GB)
+        import resource
+        CACHE.mkdir(parents=True, exist_ok=True)
+        with tempfile.TemporaryFile(dir=CACHE, prefix="cout_") as fo:
+            def lim():
+                resource.setrlimit(resource.RLIMIT_FSIZE, (OUTPUT_LIMIT, OUTPUT_LIMIT))
+            try:
+                r = subprocess.run(argv, input=("\n".join(lines) + "\n").encode(), stdout=fo,
+                                   stderr=subprocess.PIPE, env=ASAN_ENV, timeout=timeout, preexec_fn=lim)
+                rc, err = r.returncode, r.stderr.decode(errors="replace")[-20000:]
+            except subprocess.TimeoutExpired:
+                rc, err = -9, "SUMMARY: timeout after %ss (hang / infinite loop?)" % timeout
+            fo.seek(0)
+            so = fo.read().decode(errors="replace")
+        if rc == -25:    # SIGXFSZ
+            err = "SUMMARY: output limit of %d bytes exceeded (endless printing loop?)\n" % OUTPUT_LIMIT + err
+        if rc == -9:
+            return so.split("\n")[:-1], -9, err
+        return (so.split("\n")[:-1] if so.endswith("\n") else so.split("\n")), rc, err
+    except OSError as e:
+        return [], -1, "SUMMARY: cannot run the harness: %s" % e
 
 
 def run_lean(container, lines, timeout=300):
@@ -482,7 +501,8 @@ class Runner:
             if "nosession" in cs[0]:
                 continue
             physsig = re.sub(r"\[[^\]]*\]", "[]", cs[1])
-            self.distinct.add((name, st, physsig))
+            if len(self.distinct) < 3000000:     # 64-bit digests, not the strings (a thorough run once held > 60 GB of them)
+                self.distinct.add(hash((name, st, physsig)))
             if i < len(m_lines) and not m_lines[i].startswith("M ?"):
                 self.model_lines += 1
         if len(self.samples) < 3 and len(ops) > 3:
